@@ -4,6 +4,8 @@ import random
 
 LETTERS = ['a', 'b', 'c']
 WIDE = ['é', '€', '😀']          # 2, 3 and 4 bytes in UTF-8
+# characters at the boundaries of the UTF-8 length classes and of ASCII, controls
+BOUNDARY = ['\x7f', '\x01', '\x7e', '\u0080', '\u07ff', '\u0800', '\uffff', '\U00010000', '\U0010ffff', '\t', '\r']
 OTHER = ['\n', ' ', '-', 'x', '0', '_']
 META = set('\\.+*?()|[]{}^$#&-~')
 
@@ -189,7 +191,7 @@ def alphabet_of(modes):
 
 def gen_input(rng, modes, maxlen=16):
     alpha = alphabet_of(modes) or ['a']
-    extra = LETTERS + WIDE + OTHER
+    extra = LETTERS + WIDE + OTHER + BOUNDARY
     n = rng.randint(0, maxlen)
     out = []
     for _ in range(n):
@@ -318,7 +320,7 @@ def gen_small_mode(rng, name, alpha, npat, la_prob, min_la=0):
 
 def gen_small_input(rng, alpha, maxlen=12, noise=0.1):
     n = rng.randint(0, maxlen)
-    return ''.join(rng.choice(alpha) if rng.random() >= noise else rng.choice(WIDE + ['-', '\n']) for _ in range(n))
+    return ''.join(rng.choice(alpha) if rng.random() >= noise else rng.choice(WIDE + ['-', '\n'] + BOUNDARY) for _ in range(n))
 
 
 def pick_alpha(rng):
@@ -345,3 +347,67 @@ def add_transitions(rng, modes):
 
 def all_next(inp):
     return [['next']] * (len(inp) + 2)
+
+
+def gen_engineered_lookahead_case(rng):
+    """Candidates with prescribed (length, lookahead length) splits of one base word, so that
+    extents tie or interleave: pattern = (generalised) prefix of the word, positive lookahead =
+    (generalised) following piece; token types are shuffled against the listing order."""
+    alpha = ['a', 'b', 'c']
+    n = rng.randint(2, 6)
+    w = [rng.choice(alpha) for _ in range(n)]
+    # make runs likely so that x+ generalisations have several lengths
+    for i in range(1, n):
+        if rng.random() < 0.4:
+            w[i] = w[i - 1]
+    def generalise(piece):
+        out = []
+        i = 0
+        while i < len(piece):
+            c = piece[i]
+            j = i
+            while j + 1 < len(piece) and piece[j + 1] == c:
+                j += 1
+            r = rng.random()
+            if j > i and r < 0.5:
+                out.append(c + '+')
+                i = j + 1
+                continue
+            if r < 0.15:
+                out.append('.')
+            elif r < 0.3:
+                out.append('[' + ''.join(sorted(set([c, rng.choice(alpha)]))) + ']')
+            elif r < 0.4:
+                out.append(c + '?' + c) if False else out.append(c)
+            else:
+                out.append(c)
+            i += 1
+        return ''.join(out)
+    npat = rng.randint(2, 5)
+    total_pool = [n, n, n, max(1, n - 1), rng.randint(1, n)]
+    pats = []
+    for _ in range(npat):
+        total = rng.choice(total_pool)
+        k = rng.randint(1, total)
+        l = total - k
+        p = {'p': generalise(w[:k])}
+        r = rng.random()
+        if l > 0 and r < 0.75:
+            p['la'] = {'pos': True, 'p': generalise(w[k:k + l])}
+        elif r < 0.85 and k < n:
+            p['la'] = {'pos': False, 'p': generalise(w[k:k + 1])}
+        elif r < 0.9 and k < n:
+            p['la'] = {'pos': True, 'p': generalise(w[k:k + rng.randint(1, n - k)]) + ('?' if False else '')}
+        pats.append(p)
+    toks = rng.sample(range(0, 12), npat)
+    for p, t in zip(pats, toks):
+        p['t'] = t
+    inp = ''.join(w)
+    r = rng.random()
+    if r < 0.3:
+        inp = inp + rng.choice(alpha + [';'])
+    elif r < 0.5:
+        inp = rng.choice([';', 'c;', '']) + inp
+    elif r < 0.6:
+        inp = inp + inp
+    return [{'name': 'M0', 'patterns': pats, 'transitions': []}], inp
